@@ -130,6 +130,7 @@ type World struct {
 	Unix   int64
 	Sends  int // number of successful bank mutations (for "nothing changed" assertions)
 	MintLog []MintRec
+	Meta    []string // base denoms with bank metadata (IterateAllDenomMetaData)
 	parent *World
 	em     *sdk.EventManager
 }
@@ -162,6 +163,7 @@ func (w *World) Clone() *World {
 	}
 	c.Height, c.Unix, c.Sends = w.Height, w.Unix, w.Sends
 	c.MintLog = append([]MintRec{}, w.MintLog...)
+	c.Meta = w.Meta
 	return c
 }
 
@@ -344,7 +346,13 @@ func (Bank) SetDenomMetaData(ctx context.Context, m banktypes.Metadata) {}
 func (Bank) GetDenomMetaData(ctx context.Context, denom string) (banktypes.Metadata, bool) {
 	return banktypes.Metadata{}, false
 }
-func (Bank) IterateAllDenomMetaData(ctx context.Context, cb func(banktypes.Metadata) bool) {}
+func (Bank) IterateAllDenomMetaData(ctx context.Context, cb func(banktypes.Metadata) bool) {
+	for _, d := range wOf(ctx).Meta {
+		if cb(banktypes.Metadata{Base: d}) {
+			return
+		}
+	}
+}
 
 func send(w *World, from, to sdk.AccAddress, amt sdk.Coins) error {
 	for _, c := range amt {
